@@ -14,7 +14,7 @@ RULE = ('one case = one operation (pileup, bedgraph pileup, mask, merge with dis
         'input share an endpoint, nest or overlap, or an interval touches position 0 or the contig end')
 EXHAUSTIVE = {'quick': False, 'thorough': False}
 TIE = 'translator+correspondence'
-TIE_DETAIL = ('translate/gen_c08.py regenerates Gen/C08.v (30 per-element kernels of intervals.py, similarity_measures.py, '
+TIE_DETAIL = ('translate/gen_c08.py regenerates Gen/C08.v (28 per-element kernels of intervals.py, similarity_measures.py, '
               'geometry.py) and Bridge/C08.v re-proves them equal to the model (theorem C08_source_tie); every model function is also '
               'evaluated in Coq on the same input as the library call')
 ASSUMPTIONS = ['npstructures RunLength2dArray.from_intervals/.sum(axis=0), RunLengthArray.to_array and indexing a run-length '
